@@ -61,6 +61,22 @@ def cases_index(ctx, exhaustive_windows):
                         t = s + i * r + d
                         cs.append({"f": "d2i", "a": [s, e, r, size, t, 0], "w": (s, e, r, size)})
                         cs.append({"f": "pd2i", "a": [s, r, t]})
+    # long windows (1, 3 and 10 years): instants and indices far from the start, around the points where a
+    # single-precision float stops representing whole seconds (2^24 s = 194 days, 2^26 s, 2^28 s)
+    for base in BASES[:1]:
+        for r in (60, 300, 900, 1800, 3600):
+            for years in (1, 3, 10):
+                s, e = base, base + years * 365 * 86400
+                size = -((-(e - s)) // r) + 1
+                marks = {size - 1, size // 2, size // 3, (2 ** 24) // r, (2 ** 24) // r + 1, (2 ** 26) // r + 3, (2 ** 28) // r + 5,
+                         (2 ** 24 + 2 ** 23) // r, 200 * 86400 // r, 777 * 86400 // r + 1}
+                for i in sorted(x for x in marks if 0 < x < size):
+                    cs.append({"f": "pi2d", "a": [s, r, i]})
+                    cs.append({"f": "i2d", "a": [s, e, r, size, i, 0], "w": (s, e, r, size)})
+                    for d in (-1, 0, 1, r - 1):
+                        t = s + i * r + d
+                        cs.append({"f": "pd2i", "a": [s, r, t]})
+                        cs.append({"f": "d2i", "a": [s, e, r, size, t, 0], "w": (s, e, r, size)})
     return cs
 
 
